@@ -1543,6 +1543,33 @@ brk("C11", "unitary half-step propagator rebuilt from the spectrum with the plai
 ok("C11", "unitary half-step propagator rebuilt from the spectrum with the conjugate transpose of the eigenvectors",
    _spectral('states.conj().T'))
 
+# ------------------------------------------------------------------ exchanged arguments (C16 X11, C05 E6)
+_FPT_SUPER = '            super().__init__(\n                hilbert_space_dimension,\n                dt,\n                transform_in,\n                transform_out,\n                name,\n                description)\n            self._filename = tmp_filename\n'
+for _pid, _rule in (("C16", "X11"), ("C05", "E6")):
+    brk(_pid, "FileProcessTensor hands transform_out / transform_in to its base class in each other's positions", _rule, _sub(
+        PTM, _FPT_SUPER, _FPT_SUPER.replace('                transform_in,\n                transform_out,\n', '                transform_out,\n                transform_in,\n')))
+    ok(_pid, "FileProcessTensor hands its fields to the base class by keyword, in another order", _sub(
+        PTM, _FPT_SUPER, '            super().__init__(\n                hilbert_space_dimension,\n                dt,\n                transform_out=transform_out,\n                transform_in=transform_in,\n                name=name,\n                description=description)\n            self._filename = tmp_filename\n'))
+# ------------------------------------------------------------------ C20 A3: constructor local derived from a public-twin parameter
+_CSD_CUT = '        self._cutoff_function = \\\n            lambda omega: CUTOFF_DICT[self.cutoff_type](omega, self.cutoff)\n'
+brk("C20", "cutoff shape looked up once in the constructor and captured by the spectral-density closure", "A3", _sub(
+    BC, _CSD_CUT, '        cutoff_function = CUTOFF_DICT[cutoff_type]\n        self._cutoff_function = \\\n            lambda omega: cutoff_function(omega, self.cutoff)\n'))
+ok("C20", "cutoff shape looked up through self.cutoff_type by a local helper inside the closure", _sub(
+    BC, _CSD_CUT, '        self._cutoff_function = \\\n            lambda omega: (lambda shape: shape(omega, self.cutoff))(CUTOFF_DICT[self.cutoff_type])\n'))
+
+# ------------------------------------------------------------------ per-system control closures (C18 O7, C09 F6, C20 A10; benign for C02 / C03)
+_WF_PREP = '    def prepare_controls(step: int, control:Control):\n        return control.get_controls(\n            step,\n            dt=dt,\n            start_time=start_time)\n'
+_WF_USE = '            controls_tuple_list = [\n                prepare_controls(step, control)\n                for control in parsed_parameters_dict["control"]]\n'
+def _wf_closures(bind):
+    return _multi(
+        _sub(SD, _WF_PREP, '    controls_list = [lambda step' + bind + ': control.get_controls(step,\n                                                       dt=dt,\n                                                       start_time=start_time)\n                     for control in parsed_parameters_dict["control"]]\n'),
+        _sub(SD, _WF_USE, '            controls_tuple_list = [controls(step)\n                                   for controls in controls_list]\n'))
+for _pid, _rule in (("C18", "O7"), ("C09", "F6"), ("C20", "A10")):
+    brk(_pid, "per-system control look-ups as lambdas in a comprehension, control bound late", _rule, _wf_closures(''))
+for _pid in ("C18", "C09", "C20", "C02", "C03"):
+    ok(_pid, "per-system control look-ups as lambdas in a comprehension, control bound by a default argument",
+       _wf_closures(', control=control'))
+
 for _pid in ["C01", "C02", "C03", "C04", "C05", "C06", "C07", "C08", "C09", "C10", "C11", "C12", "C13",
              "C14", "C15", "C16", "C17", "C18", "C19", "C20"]:
     ok(_pid, "whole package re-printed with ast.unparse (layout, comments, line numbers)", _reformat_all)
